@@ -121,10 +121,13 @@ def enclosing_decl(path, line):
     return None
 
 
-def lean_build(targets, timeout=3000):
+def lean_build(targets, timeout=3000, locked=False):
     """lake build; returns (ok, log, first_failing_decl)."""
-    with LakeLock():
+    if locked:
         p = sh(['lake', 'build'] + list(targets), cwd=LEAN, timeout=timeout)
+    else:
+        with LakeLock():
+            p = sh(['lake', 'build'] + list(targets), cwd=LEAN, timeout=timeout)
     log = p.stdout + p.stderr
     if p.returncode == 0:
         return True, log, None
@@ -330,7 +333,13 @@ class Check:
         return self.N_THOROUGH if self.tier == 'thorough' else self.N_QUICK
 
     def proof_stage(self):
-        """Returns (ok, detail dict)."""
+        """Returns (ok, detail dict). Regeneration, build and audit happen under one lock so that two
+        checks running at once (e.g. against different SC3_REPO copies) do not see each other's
+        regenerated files."""
+        with LakeLock():
+            return self._proof_stage_locked()
+
+    def _proof_stage_locked(self):
         detail = {'targets': self.LEAN_TARGETS, 'theorems': len(self.THEOREMS)}
         err = self.regen()
         if err:
@@ -340,7 +349,7 @@ class Check:
         if hits:
             detail['broken'] = 'forbidden token: ' + '; '.join(hits)
             return False, detail
-        ok, log, decl = lean_build(self.LEAN_TARGETS)
+        ok, log, decl = lean_build(self.LEAN_TARGETS, locked=True)
         if not ok:
             detail['broken'] = f'lake build failed at {decl}'
             detail['log_tail'] = log[-1500:]
